@@ -24,7 +24,7 @@ import (
 	"github.com/blinklabs-io/gouroboros/protocol"
 )
 
-const g3TmoTarget = 150 * time.Millisecond
+const g3TmoTarget = 100 * time.Millisecond
 
 func init() {
 	register(&Prop{ID: "C14", Gen: genC14, Run: runC14, Timeout: 20 * time.Minute})
@@ -308,9 +308,11 @@ func genC14(r *Rand, n int, tier string, emit func(string)) {
 	type tgt struct {
 		line string
 	}
-	all := []string{}
+	all := []string{}         // states without a timer (incl. the start-up entry of the initial state)
+	special := []string{}     // timed states entered through a self-loop or re-entered initial states
+	timedStates := []string{} // every other timed state
 	for i := range protos {
-		if protos[i].Name == "leiosvotes" {
+		if protos[i].Name == "leiosvotes" || strings.HasSuffix(protos[i].Name, "-v20") {
 			continue
 		}
 		for _, role := range []protocol.ProtocolRole{protocol.ProtocolRoleClient, protocol.ProtocolRoleServer} {
@@ -341,7 +343,18 @@ func genC14(r *Rand, n int, tier string, emit func(string)) {
 			if reenter != nil {
 				cands = append(cands, reenter)
 			}
-			for _, path := range cands {
+			// a state entered again through a self-loop (block-fetch Streaming --Block--> Streaming):
+			// the timer must be re-armed by that transition although the state does not change
+			for _, s := range order {
+				for _, t := range m.Trans {
+					if t[0] == s && t[2] == s {
+						cands = append(cands, append(append([]int{}, paths[s]...), int(t[1])))
+						break
+					}
+				}
+			}
+			nPlain := len(order)
+			for ci, path := range cands {
 				// the state reached and a permitted continuation
 				cur := m.Init.id()
 				for _, k := range path {
@@ -366,16 +379,43 @@ func genC14(r *Rand, n int, tier string, emit func(string)) {
 				for _, k := range path {
 					toks = append(toks, symStr(&protos[i].Samples[k]))
 				}
-				all = append(all, fmt.Sprintf("%s %s PCT %s ; %s", protos[i].Name, g3RoleName(role), strings.Join(toks, " "), symStr(&protos[i].Samples[next])))
+				line := fmt.Sprintf("%s %s PCT %s ; %s", protos[i].Name, g3RoleName(role), strings.Join(toks, " "), symStr(&protos[i].Samples[next]))
+				e := m.Entries[cur]
+				timed := e.Timeout > 0 || e.TimeoutFunc != nil
+				switch {
+				case ci >= nPlain && timed:
+					special = append(special, line) // re-entered initial state / self-loop, with a timeout
+				case timed && len(path) > 0:
+					timedStates = append(timedStates, line)
+				default:
+					all = append(all, line)
+				}
 			}
 		}
 	}
-	for i := 0; i < n; i++ {
-		t := all[(i+r.Intn(3))%len(all)]
-		if i < len(all) {
-			t = all[i]
+	// Order: first every special case and every timed state with BOTH a short stall (no timeout
+	// may fire, and the old timer must be gone after the move) and a long one (it must fire); then
+	// the states without a timer; then random repeats.  The quick tier covers the first two groups.
+	emitted := 0
+	out := func(t string, pct int) {
+		if emitted < n {
+			emit("tmo " + strings.Replace(t, "PCT", strconv.Itoa(pct), 1))
+			emitted++
 		}
-		pct := Pick(r, 25, 40, 250, 300, 250)
-		emit("tmo " + strings.Replace(t, "PCT", strconv.Itoa(pct), 1))
+	}
+	for _, t := range special {
+		out(t, Pick(r, 25, 40))
+		out(t, Pick(r, 250, 300))
+	}
+	for _, t := range timedStates {
+		out(t, Pick(r, 25, 40))
+		out(t, Pick(r, 250, 300))
+	}
+	for _, t := range all {
+		out(t, Pick(r, 25, 250, 300))
+	}
+	pool := append(append(append([]string{}, special...), timedStates...), all...)
+	for emitted < n {
+		out(pool[r.Intn(len(pool))], Pick(r, 25, 40, 250, 300, 250))
 	}
 }
